@@ -35,6 +35,8 @@ type c01Case struct {
 	Blocking  bool
 	Taps      int // late subscriptions to an intermediate topic made while the pipeline is busy (each acks whatever it gets)
 	Faults    []c01Fault
+	FanN      int  // number of outputs of the fan-out stage (0: two)
+	DoneCtx   bool // every output carries a context that is done by the time the Router publishes it (derived from the delivery, released by a defer in the handler): the topics do not care
 }
 
 var c01Kinds = []string{"herr", "hpanic", "pbefore", "pafter", "ppanic", "pcancel"} // pcancel: the publisher refuses with an error that wraps context.Canceled
@@ -56,6 +58,16 @@ func runC01(c *Ctx) error {
 			cases = append(cases, c01Case{Class: "late-taps", K: k, Msgs: 3, Blocking: blk, Taps: 6, OneRouter: k == 3})
 			cases = append(cases, c01Case{Class: "late-taps", K: k, Msgs: 3, Blocking: blk, Taps: 6, Faults: []c01Fault{{2, 1, "herr"}, {2, 2, "pbefore"}}})
 		}
+	}
+	// a wide fan-out: every one of the outputs reaches the final topic
+	for _, n := range []int{101, 130, 257} {
+		cases = append(cases, c01Case{Class: "wide-fan-out", K: 1 + n%2, FanOut: 1, FanN: n, Msgs: 1, Buffer: n % 3})
+	}
+	cases = append(cases, c01Case{Class: "wide-fan-out", K: 2, FanOut: 2, FanN: 150, Msgs: 2, Faults: []c01Fault{{2, 1, "pbefore"}}})
+	// outputs that travel with a finished context
+	for _, k := range []int{1, 2, 3} {
+		cases = append(cases, c01Case{Class: "outputs-with-done-context", K: k, FanOut: k % 2, Msgs: 2, Buffer: k % 2, OneRouter: k == 2, DoneCtx: true})
+		cases = append(cases, c01Case{Class: "outputs-with-done-context", K: k, FanOut: (k + 1) % 2, Msgs: 2, DoneCtx: true, Faults: []c01Fault{{k, 1, "herr"}, {1, 2, "pafter"}}})
 	}
 	// one fault: every stage x call 1..2 x kind, on K = 1, 2 (3 in thorough)
 	maxK := c.Pick(2, 3)
@@ -241,14 +253,27 @@ func c01Run(r *tr.Run, cs c01Case) (injected int) {
 					}
 					panic("scripted handler panic")
 				}
+				octx := context.Background()
+				if cs.DoneCtx {
+					var release context.CancelFunc
+					octx, release = context.WithTimeout(msg.Context(), time.Hour)
+					defer release()
+				}
 				mkOut := func(id string) *message.Message {
 					o := message.NewMessage(id, msg.Payload)
 					o.Metadata.Set("from", x)
 					o.Metadata.Set("tin", tin)
+					if cs.DoneCtx {
+						o.SetContext(octx)
+					}
 					return o
 				}
 				if cs.FanOut == st {
-					return []*message.Message{mkOut(x + ".a"), mkOut(x + ".b")}, nil
+					outs := []*message.Message{mkOut(x + ".a"), mkOut(x + ".b")}
+					for k := 3; k <= cs.FanN; k++ {
+						outs = append(outs, mkOut(fmt.Sprintf("%s.c%d", x, k)))
+					}
+					return outs, nil
 				}
 				return []*message.Message{mkOut(x)}, nil
 			}
@@ -306,6 +331,9 @@ func c01Run(r *tr.Run, cs c01Case) (injected int) {
 		expect := []string{x}
 		if cs.FanOut > 0 {
 			expect = []string{x + ".a", x + ".b"}
+			for k := 3; k <= cs.FanN; k++ {
+				expect = append(expect, fmt.Sprintf("%s.c%d", x, k))
+			}
 		}
 		want += len(expect)
 		sw.Add(1)
